@@ -916,6 +916,35 @@ def inv_config_rule(ctx):
                 if okp:
                     mult = poly
     if mult is None:
+        # the same split / merge written with unflatten / flatten: every spatial axis split as (size // F, F) hands its
+        # F-axis to the channel group that `flatten(1, 3)` merges
+        for path in paths_of(fwd.node):
+            if path.kind != "return":
+                continue
+            splits = []
+            merged = False
+            for n in uwalk(path.ret):
+                if isinstance(n, ast.Call) and _last(n) == "unflatten" and len(n.args) >= 2 and const_number(n.args[-2]) in (2, 3, -1, -2) and isinstance(n.args[-1], (ast.Tuple, ast.List)) and len(n.args[-1].elts) == 2:
+                    a, b_ = n.args[-1].elts
+                    if isinstance(a, ast.BinOp) and isinstance(a.op, ast.FloorDiv) and norm_text(a.right) == norm_text(b_):
+                        splits.append(b_)
+                if isinstance(n, ast.Call) and _last(n) == "flatten" and [const_number(x) for x in n.args[-2:]] == [1, 3]:
+                    merged = True
+            uniq = {}
+            for b_ in splits:
+                uniq.setdefault(id(b_), b_)
+            if merged and len(splits) >= 2:
+                poly = {0: 1.0}
+                okp = True
+                for b_ in splits[:2]:
+                    q = _poly_in(b_, "self.factor")
+                    if q is None:
+                        okp = False
+                        break
+                    poly = _pmul(poly, q)
+                if okp:
+                    mult = poly
+    if mult is None:
         res.undecide("SqueezeTransform.forward", "channel multiplier not found")
         return res
     res.ok("forward multiplies the channels by the polynomial %s in self.factor" % mult)
